@@ -33,6 +33,20 @@ type MessageNotHeartbeat struct {
 
 func (*MessageNotHeartbeat) GetID() uint32 { return 0 }
 
+// MessageHeartbeat is the standard heartbeat written by hand, its fields declared in wire order (largest first)
+// instead of the order of the XML definition: same name, same field names and types, hence the same wire format
+// and CRC_EXTRA 50.
+type MessageHeartbeat struct {
+	CustomMode     uint32
+	Type           uint8
+	Autopilot      uint8
+	BaseMode       uint8
+	SystemStatus   uint8
+	MavlinkVersion uint8
+}
+
+func (*MessageHeartbeat) GetID() uint32 { return 0 }
+
 // MessageNotRequestDataStream occupies id 66 without being the standard message.
 type MessageNotRequestDataStream struct {
 	TargetSystem uint8
@@ -50,7 +64,7 @@ type hbSource struct {
 }
 
 type c16World struct {
-	dialectKind string // common ardupilotmega minimal user user-no-hb user-fake-hb user-no-rds user-fake-rds nil
+	dialectKind string // common ardupilotmega minimal user user-own-hb user-no-hb user-fake-hb user-no-rds user-fake-rds nil
 	version     int
 	hbEnabled   bool
 	period      time.Duration
@@ -64,6 +78,7 @@ type c16World struct {
 	others      int    // non-heartbeat frames interleaved
 	tcpPeers    int    // peers on one TCP server endpoint, all announcing the same ArduPilot (system 1, component 1)
 	timeouts    string // default | idle<=period | all-short: the node's timeout fields, which have nothing to do with heartbeats
+	neighbours  bool   // two ArduPilot senders (s,255) and (s+1,0) on one channel
 	manySenders int    // ArduPilot senders (distinct ids, channel 0) heard before everything else
 	busyApp     bool   // the application keeps the node busy with writes (to nobody) for a dozen periods
 }
@@ -91,6 +106,8 @@ func (w *c16World) dialect() *dialect.Dialect {
 		return nil
 	case "user":
 		return &dialect.Dialect{Version: w.version, Messages: append([]message.Message{hb, rds}, extra...)}
+	case "user-own-hb":
+		return &dialect.Dialect{Version: w.version, Messages: append([]message.Message{&MessageHeartbeat{}, rds}, extra...)}
 	case "user-no-hb":
 		return &dialect.Dialect{Version: w.version, Messages: append([]message.Message{rds}, extra...)}
 	case "user-fake-hb":
@@ -109,6 +126,9 @@ func hasStd(d *dialect.Dialect, id uint32, std message.Message) bool {
 	}
 	for _, m := range d.Messages {
 		if m.GetID() == id {
+			if _, own := m.(*MessageHeartbeat); own && id == 0 {
+				return true // hand-written, wire-compatible
+			}
 			return fmt.Sprintf("%T", m) == fmt.Sprintf("%T", std)
 		}
 	}
@@ -117,11 +137,11 @@ func hasStd(d *dialect.Dialect, id uint32, std message.Message) bool {
 
 func TestC16Automatic(t *testing.T) {
 	rec := evid.New(t, "C16", "generated node configurations (heartbeat on/off, period 20-80ms, system/autopilot type, dialect in {common, ardupilotmega, minimal, user dialects with version 0..255 with / without / with a fake HEARTBEAT or REQUEST_DATA_STREAM, none}, stream requests on/off, frequency 1..65535 (mostly 1..50), 1..3 channels, v1/v2 output) and histories of incoming heartbeats from generated (channel, system, component, autopilot) sources repeated several times and interleaved with other messages; oracles: heartbeats on every channel with the configured fields, status 4, dialect version, at most elapsed/period+1 of them and at least 2, none when disabled or the dialect lacks the standard message; for each distinct ArduPilot sender exactly the seven data-stream requests (1,2,3,6,10,11,12) at the configured rate addressed to it on its channel only plus one stream-requested event, nothing for other autopilots, other messages or when disabled; non-trivial = >=2 ArduPilot senders on >=2 channels plus a non-ArduPilot sender; distinct by hash of the scenario")
-	rec.Require("hb-enabled", "hb-disabled-or-missing", "sr-enabled-with-ardupilot", "sr-not-applicable", "multi-sender-multi-channel", "user-dialect", "v1-output", "several-channels-one-endpoint", "dialect-version-0", "ardupilot-sender-with-the-node's-own-ids", "more-than-1024-senders", "heartbeats-with-short-node-timeouts", "non-heartbeat-message-naming-ardupilot", "heartbeats-while-the-application-writes", "sibling-connection-of-the-same-endpoint-closed")
+	rec.Require("hb-enabled", "hb-disabled-or-missing", "sr-enabled-with-ardupilot", "sr-not-applicable", "multi-sender-multi-channel", "user-dialect", "v1-output", "several-channels-one-endpoint", "dialect-version-0", "ardupilot-sender-with-the-node's-own-ids", "more-than-1024-senders", "heartbeats-with-short-node-timeouts", "non-heartbeat-message-naming-ardupilot", "heartbeats-while-the-application-writes", "sibling-connection-of-the-same-endpoint-closed", "senders-(s,255)-and-(s+1,0)-on-one-channel", "hand-written-heartbeat-declared-in-wire-order")
 	evid.Check(t, rec, evid.N(200, 600), func(t *rapid.T) {
 		drawNodeInit(t)
 		w := &c16World{}
-		w.dialectKind = rapid.SampledFrom([]string{"common", "common", "ardupilotmega", "ardupilotmega", "ardupilotmega", "minimal", "user", "user", "user", "user-no-hb", "user-fake-hb", "user-no-rds", "user-fake-rds", "nil"}).Draw(t, "dialect")
+		w.dialectKind = rapid.SampledFrom([]string{"common", "common", "ardupilotmega", "ardupilotmega", "ardupilotmega", "minimal", "user", "user", "user", "user-own-hb", "user-own-hb", "user-no-hb", "user-fake-hb", "user-no-rds", "user-fake-rds", "nil"}).Draw(t, "dialect")
 		w.version = rapid.OneOf(rapid.Just(0), rapid.SampledFrom([]int{0, 1, 3, 255, 256, 300}), rapid.IntRange(0, 255)).Draw(t, "version")
 		w.hbEnabled = rapid.IntRange(0, 3).Draw(t, "hb") > 0
 		w.period = time.Duration(rapid.IntRange(20, 80).Draw(t, "period_ms")) * time.Millisecond
@@ -144,6 +164,18 @@ func TestC16Automatic(t *testing.T) {
 				h.sys, h.comp = nodeSys, nodeComp
 			}
 			w.sources = append(w.sources, h)
+		}
+		// senders whose ids sit next to each other across a byte boundary: component 255 of one system and
+		// component 0 of the next, on one channel - two senders, whatever a table key makes of them
+		if rapid.IntRange(0, 3).Draw(t, "neighbouring_ids") == 0 {
+			c, sy := rapid.IntRange(0, w.nch-1).Draw(t, "nb_ch"), byte(rapid.IntRange(1, 200).Draw(t, "nb_sys"))
+			v2 := rapid.Bool().Draw(t, "nb_v2")
+			first := []hbSource{{ch: c, sys: sy, comp: 255, autopilot: 3, v2: v2, repeat: 1}, {ch: c, sys: sy + 1, comp: 0, autopilot: 3, v2: v2, repeat: 1}}
+			if rapid.Bool().Draw(t, "nb_order") {
+				first[0], first[1] = first[1], first[0]
+			}
+			w.sources = append(w.sources, first...)
+			w.neighbours = true
 		}
 		w.others = rapid.IntRange(0, 10).Draw(t, "others")
 		if rapid.IntRange(0, 2).Draw(t, "tcp") == 0 {
@@ -688,6 +720,12 @@ func runC16(w *c16World) ([]string, error) {
 	}
 	if w.manySenders > 0 && srActive {
 		cls = append(cls, "more-than-1024-senders")
+	}
+	if w.neighbours && srActive {
+		cls = append(cls, "senders-(s,255)-and-(s+1,0)-on-one-channel")
+	}
+	if w.dialectKind == "user-own-hb" && hbExpected {
+		cls = append(cls, "hand-written-heartbeat-declared-in-wire-order")
 	}
 	if w.timeouts != "default" && hbExpected {
 		cls = append(cls, "heartbeats-with-short-node-timeouts")
